@@ -33,6 +33,13 @@ type StructV struct {
 	T   types.Type
 }
 
+// StructArrV is an array of structs living at Ref (elements at Ref + i*slotSize).
+type StructArrV struct {
+	H   *Heap
+	Ref *Term
+	T   types.Type // array type
+}
+
 type TupleV []Value
 
 type LocKind int
@@ -330,7 +337,7 @@ func (x *FnCtx) loadField(h *Heap, ref *Term, fi *fieldInfo) Value {
 		return StructV{H: h, Ref: x.refAdd(ref, fi.Off), T: ft}
 	case *types.Array:
 		if isStruct(u.Elem()) {
-			return UnknownV{"array-of-struct value"}
+			return StructArrV{H: h, Ref: x.refAdd(ref, fi.Off), T: ft}
 		}
 		return x.tb.Select(x.heapGet(h, "E."+elemKey(u.Elem()), x.contentsSort(u.Elem())), x.refAdd(ref, fi.Off))
 	case *types.Slice:
